@@ -293,7 +293,9 @@ Definition unit_line (fname : bytes) (line : Z) (fs : list bytes) (m : list umet
   end.
 
 (** ** Reader.Scan over the lines of one input *)
-Record rstate := mkRstate { rs_cfg : cstate; rs_units : list umetap }.
+(** [rs_q]: the records queued by the current line and not yet delivered
+    (r.q beyond r.qPos) *)
+Record rstate := mkRstate { rs_cfg : cstate; rs_units : list umetap; rs_q : list record }.
 
 (** one line: the records it queues and the new state *)
 Definition step (fname : bytes) (n : Z) (st : rstate) (line : bytes) : list record * rstate :=
@@ -303,12 +305,13 @@ Definition step (fname : bytes) (n : Z) (st : rstate) (line : bytes) : list reco
   | LBench (BOk name iters vals) =>
       ([RRes (mkResult (live (rs_cfg st)) name iters vals fname n)], st)
   | LUnit fs =>
-      let '(rs, m) := unit_line fname n fs (rs_units st) in (rs, mkRstate (rs_cfg st) m)
-  | LKV k v => ([], mkRstate (file_config (rs_cfg st) k v) (rs_units st))
+      let '(rs, m) := unit_line fname n fs (rs_units st) in (rs, mkRstate (rs_cfg st) m (rs_q st))
+  | LKV k v => ([], mkRstate (file_config (rs_cfg st) k v) (rs_units st) (rs_q st))
   | LOther => ([], st)
   end.
 
-(** result: records, I/O error (with the line count reached), final state *)
+(** all lines, every queued record delivered: records, I/O error (with the
+    line count reached), final state *)
 Fixpoint read_lines (fname : bytes) (n : Z) (st : rstate) (ls : list ltok)
   : list record * option Z * rstate :=
   match ls with
@@ -320,15 +323,66 @@ Fixpoint read_lines (fname : bytes) (n : Z) (st : rstate) (ls : list ltok)
       (rs ++ rs', e, st2)
   end.
 
+(** ** one call of Scan.  The scanner position is (line count, remaining lines). *)
+Definition set_q (st : rstate) (q : list record) : rstate := mkRstate (rs_cfg st) (rs_units st) q.
+
+(** the loop [for len(r.q) == 0 && r.s.Scan()]: lines until one queues something *)
+Fixpoint fill (fname : bytes) (n : Z) (st : rstate) (ls : list ltok)
+  : option (record * list record) * option Z * Z * rstate * list ltok :=
+  match ls with
+  | [] => (None, None, n, st, [])
+  | TooLong :: _ => (None, Some n, n, st, ls)       (* r.err stays set: later Scans fail the same way *)
+  | Line b :: ls' =>
+      let '(rs, st1) := step fname (n + 1) st b in
+      match rs with
+      | r :: q => (Some (r, q), None, (n + 1)%Z, st1, ls')
+      | [] => fill fname (n + 1) st1 ls'
+      end
+  end.
+
+Definition scan (fname : bytes) (n : Z) (st : rstate) (ls : list ltok)
+  : option record * option Z * Z * rstate * list ltok :=
+  match rs_q st with
+  | r :: q => (Some r, None, n, set_q st q, ls)      (* pop the queue, no input consumed *)
+  | [] =>
+      match fill fname n st ls with
+      | (Some (r, q), e, n', st', ls') => (Some r, e, n', set_q st' q, ls')
+      | (None, e, n', st', ls') => (None, e, n', st', ls')
+      end
+  end.
+
+(** [k] calls of Scan (stopping at the first that returns false) *)
+Fixpoint scan_n (k : nat) (fname : bytes) (n : Z) (st : rstate) (ls : list ltok)
+  : list record * option Z * rstate :=
+  match k with
+  | O => ([], None, st)
+  | S k' =>
+      match scan fname n st ls with
+      | (Some r, _, n', st', ls') =>
+          let '(rs, e, st2) := scan_n k' fname n' st' ls' in (r :: rs, e, st2)
+      | (None, e, _, st', _) => ([], e, st')
+      end
+  end.
+
 Definition file_name (fname : bytes) : bytes := if is_nil fname then bs "<unknown>" else fname.
+
+(** Reader.Reset: configuration cut back and relabelled, unit table kept, the
+    queue of the previous input wiped (whatever was still undelivered) *)
+Definition reset (st : rstate) (labels : list (bytes * bytes)) : rstate :=
+  mkRstate (reset_config (rs_cfg st) labels) (rs_units st) [].
 
 (** Reset(input, fileName, labels...) then Scan to the end *)
 Definition read_file (st : rstate) (fname : bytes) (labels : list (bytes * bytes)) (content : bytes)
   : list record * option Z * rstate :=
-  read_lines (file_name fname) 0 (mkRstate (reset_config (rs_cfg st) labels) (rs_units st))
-             (split_lines content).
+  read_lines (file_name fname) 0 (reset st labels) (split_lines content).
 
-Definition rs_empty : rstate := mkRstate cs_empty [].
+(** Reset(...) then only [k] calls of Scan: the caller abandons the input,
+    possibly in the middle of the records of one line *)
+Definition read_file_take (k : nat) (st : rstate) (fname : bytes) (labels : list (bytes * bytes))
+           (content : bytes) : list record * option Z * rstate :=
+  scan_n k (file_name fname) 0 (reset st labels) (split_lines content).
+
+Definition rs_empty : rstate := mkRstate cs_empty [] [].
 
 (** ** Specification: what the format prescribes, line by line.
     The configuration is a finite map key -> (value, file?) updated by the
@@ -367,6 +421,28 @@ Fixpoint spec_lines (fname : bytes) (n : Z) (m : cmap) (um : list umetap) (ls : 
       let '(rs', e, um2) := spec_lines fname (n + 1) m1 um1 ls' in
       (rs ++ rs', e, um2)
   end.
+
+(** the caller takes only the first [k] records: the lines up to the one that
+    delivers the k-th record are in effect (their unit metadata is recorded) *)
+Fixpoint spec_lines_take (fname : bytes) (n : Z) (m : cmap) (um : list umetap) (ls : list ltok) (k : nat)
+  {struct ls} : list record * option Z * list umetap :=
+  match k with
+  | O => ([], None, um)
+  | S _ =>
+      match ls with
+      | [] => ([], None, um)
+      | TooLong :: _ => ([], Some n, um)
+      | Line b :: ls' =>
+          let '(rs, m1, um1) := spec_step fname (n + 1) m um b in
+          if (k <=? length rs)%nat then (firstn k rs, None, um1)
+          else let '(rs', e, um2) := spec_lines_take fname (n + 1) m1 um1 ls' (k - length rs) in
+               (rs ++ rs', e, um2)
+      end
+  end.
+
+Definition linespec_take (k : nat) (um : list umetap) (fname : bytes) (labels : list (bytes * bytes))
+           (content : bytes) : list record * option Z * list umetap :=
+  spec_lines_take (file_name fname) 0 (cm_labels labels) um (split_lines content) k.
 
 Definition linespec (um : list umetap) (fname : bytes) (labels : list (bytes * bytes)) (content : bytes)
   : list record * option Z * list umetap :=
